@@ -293,8 +293,6 @@ def signature(case, verdict, failed):
     if failed == ["spec"] and agree:
         if fs is not None and fs["op"] == "swap" and fs["k"] >= 1 and fs["out"]["err"] == "ERR:AssertionError":
             return "swap:depth>0:empty-fiber:AssertionError"
-        if fs is not None and fs["op"] == "unflatten" and fs["k"] >= 1 and fs["out"]["err"] == "ERR:IndexError":
-            return "unflatten:depth>0:empty-fiber:IndexError"
         if fs is not None and fs["op"] == "unflatten" and fs["out"]["err"] == "ERR:TypeError" \
                 and "undeclaredEmptyRank" in tags:
             return "unflatten:empty-rank:undeclared-shape:TypeError"
